@@ -840,3 +840,81 @@ def _native_rejections(tier="quick", seed=0):
 
 
 JOBS["C11.native_rejections"] = _native_rejections
+
+
+# ---------------------------------------------------------------------------------------------------------
+# the generated `_add_x(**attrs)`: a child whose attribute value is refused never reaches the tree
+
+
+def _replay_add_child(model, rec):
+    from pptx.oxml import parse_xml
+    from pptx.oxml.ns import nsdecls
+
+    for xml, meth, kw in (('<c:marker %s/>' % nsdecls("c"), "_add_size", {"val": 73}), ('<c:valAx %s/>' % nsdecls("c"), "_add_majorUnit", {"val": -1.0}),
+                          ('<c:marker %s/>' % nsdecls("c"), "_add_symbol", {"val": "no-such-symbol"})):
+        el = parse_xml(xml)
+        try:
+            getattr(el, meth)(**kw)
+            return {"confirmed": True, "witness_class": "set-get", "detail": "%s(%r) on an empty element was accepted" % (meth, kw)}
+        except (ValueError, TypeError):
+            pass
+        except Exception as e:
+            return {"confirmed": True, "witness_class": "set-get", "detail": "%s(%r) raised %r" % (meth, kw, e)}
+        if len(el):
+            return {"confirmed": True, "witness_class": "set-get", "detail": "%s(%r) was refused, yet the element now holds %s" % (meth, kw, [c.tag.split("}")[1] for c in el])}
+    return {"confirmed": False, "detail": "a refused attribute value leaves no child behind"}
+
+
+def _make_add_child(n_ok, refuse):
+    @contract("C11", "C11.oxml.xmlchemy._add_child[%d accepted attribute(s)%s]" % (n_ok, ", then a refused one" if refuse else ""), replay=_replay_add_child)
+    def body(c):
+        """the new child receives every keyword attribute while it is still detached and is inserted afterwards, once; when an attribute
+        value is refused (the setter raises) nothing is inserted."""
+        import inspect
+
+        from pyvc.engine import GhostFn, PyRaise, SObj
+        from pptx.oxml.chart.marker import CT_Marker
+
+        fn = inspect.getattr_static(CT_Marker, "_add_size")
+        log = []
+
+        class _Child:
+            __pyvc_symbolic__ = True
+
+            def sym_truth(self, it):
+                return True
+
+            def sym_setattr(self, it, name, v):
+                if name == "refused":
+                    log.append(("refused", name))
+                    raise PyRaise(ValueError, ("value outside the simple type",))
+                log.append(("set", name))
+
+            def sym_getattr(self, it, name):
+                raise Unsupported("attribute %s of the new child is not modelled" % name)
+
+        child = _Child()
+        obj = SObj(None, "parent", _new_size=GhostFn(lambda it, a, k: (log.append(("new", None)), child)[1], "_new_size"),
+                   _insert_size=GhostFn(lambda it, a, k: log.append(("insert", a[0] is child)), "_insert_size"), __external__=True)
+        attrs = {"a%d" % i: i for i in range(n_ok)}
+        if refuse:
+            attrs["refused"] = 0
+            attrs["later"] = 1
+        out = c.run(lambda o: fn(o, **attrs), obj)
+        inserts = [e for e in log if e[0] == "insert"]
+        if refuse:
+            c.ensures("refused.raises_ValueError", out.raised and out.exc.exc_cls is ValueError)
+            c.ensures("refused.nothing_inserted", not inserts)
+            return
+        if out.raised:
+            c.fails("never_raises", "raised %s" % out.exc)
+            return
+        c.ensures("post.returns_the_child", out.value is child)
+        c.ensures("post.inserted_once_that_child", inserts == [("insert", True)])
+        c.ensures("post.every_attribute_set_before_insertion", [e for e in log if e[0] == "set"] == [("set", "a%d" % i) for i in range(n_ok)] and (not log or log[-1][0] == "insert"))
+
+    return body
+
+
+for _n, _r in ((0, False), (2, False), (0, True), (2, True)):
+    _make_add_child(_n, _r)
